@@ -21,7 +21,7 @@ import sys
 import types
 import warnings
 from dataclasses import MISSING, field, fields, is_dataclass, make_dataclass
-from decimal import Decimal
+from decimal import Decimal, InvalidOperation
 from enum import Enum
 from fractions import Fraction
 from typing import Any
@@ -58,12 +58,43 @@ def num_key(x):
         if math.isinf(x):
             return "inf" if x > 0 else "-inf"
     else:  # Decimal
+        if x.is_snan():
+            return "snan"
         if x.is_nan():
             return "nan"
         if x.is_infinite():
             return "inf" if x > 0 else "-inf"
     f = Fraction(x)
     return [str(f.numerator), str(f.denominator)]
+
+
+def f64_key(x):
+    """the binary64 value as the Lean model holds it: [neg, "m", q] with x = ±m·2^q, m < 2^53, q ≥ -1074"""
+    if math.isnan(x):
+        return "nan"
+    if math.isinf(x):
+        return "inf" if x > 0 else "-inf"
+    neg = math.copysign(1.0, x) < 0
+    if x == 0:
+        return [neg, "0", -1074]
+    fr, e = math.frexp(abs(x))  # abs(x) = fr * 2**e, 0.5 <= fr < 1
+    m, q = int(fr * (1 << 53)), e - 53
+    if q < -1074:  # subnormal: fewer significant bits
+        m >>= -1074 - q
+        q = -1074
+    assert math.ldexp(m, q) == abs(x)
+    return [neg, str(m), q]
+
+
+def dec_key(d):
+    """a Decimal as the Lean model holds it (its as_tuple())"""
+    sign, digits, exp = d.as_tuple()
+    neg = bool(sign)
+    if exp == "F":
+        return ["inf", neg]
+    if exp in ("n", "N"):
+        return ["nan", neg, exp == "N", "".join(map(str, digits)) or "0"]
+    return ["fin", neg, "".join(map(str, digits)) or "0", exp]
 
 
 def ref_of(cls):
@@ -81,7 +112,9 @@ def to_json(o):
     if type(o) is int:
         return {"t": "int", "v": str(o)}
     if type(o) is float:
-        return {"t": "float", "repr": repr(o), "num": num_key(o)}
+        return {"t": "float", "repr": repr(o), "num": num_key(o), "f64": f64_key(o)}
+    if type(o) is Decimal:
+        return {"t": "decimal", "repr": repr(o), "num": num_key(o), "dec": dec_key(o)}
     if type(o) is str:
         return {"t": "str", "v": o, "repr": repr(o)}
     if isinstance(o, bytes):
@@ -258,6 +291,13 @@ def build_val(j, b: Built):
         return int(j["v"])
     if t == "float":
         return float(j["repr"])
+    if t == "decimal":
+        kind, neg, *rest = j["dec"]
+        if kind == "inf":
+            return Decimal("-Infinity" if neg else "Infinity")
+        if kind == "nan":
+            return Decimal((int(neg), tuple(int(c) for c in rest[1].lstrip("0")), "N" if rest[0] else "n"))
+        return Decimal((int(neg), tuple(int(c) for c in rest[0]), rest[1]))
     if t == "str":
         return j["v"]
     if t == "bytes":
@@ -342,6 +382,8 @@ def impl_code(a):
         text = _SER.render(obj, var)
     except SerializerError:
         return ok({"text": "RAISES:SerializerError", "outcome": "refused:SerializerError"})
+    except InvalidOperation:
+        return ok({"text": "RAISES:InvalidOperation", "outcome": "refused:InvalidOperation"})
     outcome, _, _ = run_source(text, var, obj)
     return ok({"text": text, "outcome": outcome})
 
@@ -374,11 +416,14 @@ def compare_code(mo, io, a):
         return False
     if not h.get("reprs"):
         return False  # the repr() of some str/bytes leaf is not what the model's pyReprStr/pyReprBytes computes
-    if all(h.get(k) for k in ("wf", "dom", "renders", "nesting")):
+    if all(h.get(k) for k in ("wf", "dom", "init", "renders", "nesting", "quiet")):
         STATS["claimed"] += 1
         STATS["claimed_equal"] += io["ok"]["outcome"] == "equal"
         if io["ok"]["outcome"] != "equal" or mo["ok"]["outcome"] != "equal":
             return False
+    if mo["ok"]["text"] == "RAISES:unmodelled":
+        # a signaling NaN inside a dict/set comparison: the model does not say whether render raises
+        return mo["ok"]["outcome"] == "unmodelled" and has_snan(a)
     if mo["ok"]["text"] != io["ok"]["text"]:
         return False
     return mo["ok"]["outcome"] in ("unmodelled", io["ok"]["outcome"])
@@ -405,7 +450,10 @@ def compare_dq(mo, io, a):
 def impl_pyeq(a):
     b = build_world(a["world"])
     x, y = build_val(a["a"], b), build_val(a["b"], b)
-    return ok(bool(x == y))
+    try:
+        return ok(bool(x == y))
+    except InvalidOperation:
+        return err("InvalidOperation")
 
 
 # ---------------------------------------------------------------------------
@@ -475,8 +523,10 @@ STRS = ["", "a", "en", "a'b", 'a"b', "a'b\"c", "a\nb", "€", "\\", "a\\b", "\x7
         "\x00\x01\x1f", "\r\n", "\x80\x9f", "\xa0\xad", "\u0378", "\u2028\u2029", "\ufeff", "\ue000", "\U0001f600",
         "\U000e0001", "\U0010ffff", "\\'", '\\"', "'\\", "x\x7fy\xe9z",
         "1", "0", "None", "True", "1.5", "()", "[]", "b'ab'"]  # the last row: str() look-alikes of other defaults
-FLOATS = [0.0, -0.0, 1.0, 1.5, 0.1, 1e22, 1e-7, -2.5e-300, float("inf"), float("-inf"), float("nan"), 3.0]
-DECS = ["0", "1", "1.50", "-0.0", "0.1", "1E+3", "3", "NaN", "Infinity", "-Infinity", "-7.25"]
+FLOATS = [0.0, -0.0, 1.0, 1.5, 0.1, 1e22, 1e-7, -2.5e-300, float("inf"), float("-inf"), float("nan"), 3.0,
+          5e-324, 2.2250738585072014e-308, 2.225073858507201e-308, 1.7976931348623157e308, 1e16, 9999999999999998.0, 1e-5, 0.0001,
+          123456789012345678.0, 0.30000000000000004, -1e-323, 4.35, 2.5e-5]  # subnormals, extremes, both notations of repr
+DECS = ["0", "1", "1.50", "-0.0", "0.1", "1E+3", "3", "NaN", "Infinity", "-Infinity", "-7.25", "sNaN", "-0E-7", "1E-30", "12345678901234567890.5"]
 INTS = [0, 1, -1, 2, 3, 10**30, -5, 255]
 OPAQUES = [
     XmlDate(2000, 1, 2), XmlDate(1999, 12, 31), XmlDateTime(2000, 1, 2, 3, 4, 5), XmlDateTime(2001, 1, 2, 3, 4, 5, 600),
@@ -532,7 +582,7 @@ def hash_key(j):
         return ("num", "1/1" if j["v"] else "0/1")
     if t == "int":
         return ("num", f"{int(j['v'])}/1")
-    if t in ("float", "opaque") and isinstance(j.get("num"), list):
+    if t in ("float", "opaque", "decimal") and isinstance(j.get("num"), list):
         return ("num", "/".join(j["num"]))
     if t in ("str", "qname"):
         return ("s", j.get("v", j.get("text")))
@@ -651,7 +701,7 @@ def rand_default(rng, world_so_far):
     if r < 0.60:
         while True:
             v = rand_scalar(rng, enums)
-            if v["t"] in ("float", "opaque") and v.get("num") == "nan":  # NaN defaults: identity shortcuts, not modelled
+            if v["t"] in ("float", "opaque", "decimal") and v.get("num") == "nan":  # NaN defaults: identity shortcuts, not modelled
                 continue
             if v["t"] == "opaque" and v["path"][0] in ("XmlPeriod", "XmlDuration"):  # unhashable: dataclasses wants a factory
                 return {"factory": v}
@@ -817,6 +867,14 @@ def hand_cases():
     for kw in ({}, {"colors": J([])}, {"header": J(None)}, {"colors": J(["red", "green"])}, {"header": inst(Hdr, version=J("2"))},
                {"colors": J([]), "sizes": J([]), "header": J(None), "name": J("")}, {"header": inst(Hdr)}):
         case(WP, inst(Pal, **kw))
+    # a signaling NaN against numeric / list / non-numeric defaults (render itself raises for the first two)
+    SN = J(Decimal("sNaN"))
+    Cn = model(MOD_A, ["Cn"], [fld("num", dv(0)), fld("flt", dv(1.5)), fld("non", dv(None)), fld("lst", df([1, "a"])), fld("emp", df([])),
+                               fld("dec", dv(Decimal("0")))])
+    for kw in ({"num": SN}, {"flt": SN}, {"non": SN}, {"lst": {"t": "list", "items": [SN, J("a")]}}, {"lst": {"t": "list", "items": [SN]}},
+               {"emp": {"t": "list", "items": [SN]}}, {"dec": SN}, {"non": {"t": "list", "items": [SN]}},
+               {"non": {"t": "dict", "items": [[J("k"), SN]]}}, {"lst": {"t": "list", "items": [J(1), SN]}}):
+        case([Cn], inst(Cn, **kw))
     # same class name in two modules
     A1 = model(MOD_A, ["Address"], [fld("x", dv(None)), fld("y", dv(0))])
     A2 = model(MOD_B, ["Address"], [fld("x", dv(None)), fld("w", dv(0))])
@@ -978,8 +1036,10 @@ def features(a):
             fs.add("nested-model" if len(j["path"]) > 1 else "model")
         elif t == "float":
             fs.add("float-nonfinite" if not isinstance(j["num"], list) else "float")
+        elif t == "decimal":
+            fs.add("decimal")
         elif t == "opaque":
-            fs.add("decimal" if j["path"] == ["Decimal"] else "xml-datatype")
+            fs.add("xml-datatype")
         elif t == "dict":
             fs.add("dict+" if j["items"] else "dict0")
         elif t in ("bytes", "list"):
@@ -1229,6 +1289,37 @@ def classify_lit(a, o):
     return kind + " " + ("+".join(feats) or ("esc" if "\\" in t else "plain"))
 
 
+def gen_decrepr(rng, tier):
+    """Decimal values by their as_tuple(): every notation boundary of str() (exponent 0, ≤ 0 with / without leading zeros,
+    the 1e-6 switch to scientific, positive exponents, one and many digits), zeros of both signs, specials with payloads"""
+    for neg in (False, True):
+        for c in ("0", "1", "5", "10", "15", "100", "12345", "99999999999999999999"):
+            for x in (0, 1, 2, 3, -1, -2, -4, -5, -6, -7, -8, -10, -19, -20, -21, -26, -30, 30, 999999):
+                yield {"dec": ["fin", neg, c, x]}
+        yield {"dec": ["inf", neg]}
+        for sg in (False, True):
+            for p in ("0", "1", "123", "9" * 30):
+                yield {"dec": ["nan", neg, sg, p]}
+    for _ in range(1500 if tier == "quick" else 30000):
+        c = str(rng.choice([0, rng.randrange(10), rng.randrange(10**4), rng.randrange(10**12), rng.randrange(10**30)]))
+        yield {"dec": ["fin", rng.random() < 0.5, c, rng.choice([0, 0, rng.randint(-40, 40), rng.randint(-8, 2), rng.randint(-400, 400)])]}
+
+
+def impl_decrepr(a):
+    d = build_val({"t": "decimal", "dec": a["dec"]}, None)
+    r = repr(d)
+    back = eval(r, {"Decimal": Decimal})  # noqa: S307
+    return ok({"repr": r, "back": back.as_tuple() == d.as_tuple()})
+
+
+def classify_decrepr(a, o):
+    r = o["ok"]["repr"]
+    kind = a["dec"][0]
+    if kind != "fin":
+        return kind + (" payload" if kind == "nan" and a["dec"][3] != "0" else "") + (" signaling" if kind == "nan" and a["dec"][2] else "")
+    return "fin " + ("sci" if "E" in r else "plain") + (" point" if "." in r else "") + (" zero" if a["dec"][2].strip("0") == "" else "")
+
+
 def gen_pyeq(rng, tier):
     """Python == vs pyEq: scalars x scalars (numeric tower, QName/str, bytes
     subclasses, NaN, specials), containers, and instances of two dataclasses
@@ -1244,6 +1335,7 @@ def gen_pyeq(rng, tier):
         J(()), J([]), J({}), J([1]), J((1,)), J([True]), J({"a": 1}), J({"a": 1.0}), J("b"), J(b"a"), J(0.1), J(Decimal("0.1")),
         J(XmlDate(2000, 1, 2)), J(XmlDate(1999, 12, 31)), J(XmlDuration("P1D")), J([[0]]), J([(False,)]), J(((),)),
         J(set()), J(frozenset()), J({1}), J(frozenset({1})), J({1, 2}), J(frozenset({1, 2})), J({1.0}), J([{1}]),
+        J(Decimal("sNaN")), J([Decimal("sNaN")]), J((Decimal("sNaN"),)), J((1, Decimal("sNaN"))), J([1, Decimal("sNaN")]), J(XmlDate(2000, 1, 2)),
         J(""), J(b""), J(QName("")), J("a'b"), J(b"a'b"), J(XmlBase64Binary(b"a")), J(10**30), J(1e30), J(Decimal(10**30)),
         J([QName("a")]), J(["a"]), J({"a": QName("a")}), J({QName("a"): 1}), J([1.0, True]), J([1, 1]), J((1, [2, {3: 4}])), J([1, [2, {3: 4.0}]]),
         member(EA, "A"), member(EA, "B"), member(EB, "A"), J([1, None]), J([None, 1]),
@@ -1265,7 +1357,7 @@ def gen_pyeq(rng, tier):
 def classify_pyeq(a, o):
     def kind(j):
         t = j["t"]
-        if t in ("bool", "int", "float") or (t == "opaque" and j.get("num") is not None):
+        if t in ("bool", "int", "float", "decimal") or (t == "opaque" and j.get("num") is not None):
             return "num"
         return {"str": "text", "qname": "text", "list": "seq", "tuple": "seq", "set": "set", "opaque": "opaque"}.get(t, t)
 
@@ -1332,7 +1424,16 @@ def impl_seq(a):
             out.append(ser.render(obj, "obj"))
         except SerializerError:
             out.append("RAISES:SerializerError")
+        except InvalidOperation:
+            out.append("RAISES:InvalidOperation")
     return ok(out)
+
+
+def compare_seq(mo, io, a):
+    if "ok" not in mo or "ok" not in io or len(mo["ok"]) != len(io["ok"]):
+        return mo == io
+    # the model may decline one render (a signaling NaN in a comparison it does not cover)
+    return all(m == i or m == "RAISES:unmodelled" for m, i in zip(mo["ok"], io["ok"]))
 
 
 def classify_seq(a, o):
@@ -1344,7 +1445,7 @@ CORRS = [
     Corr("c18.code", gen_code, impl_code, canon=canon_code, compare=compare_code, classify=classify_code,
          nontrivial=lambda a, o: a["val"]["t"] in ("model", "list", "tuple", "dict", "set"),
          describe="PycodeSerializer.render text + outcome of exec'ing it vs model (text exact; outcome unless the model declines)"),
-    Corr("c18.seq", gen_seq, impl_seq, classify=classify_seq,
+    Corr("c18.seq", gen_seq, impl_seq, compare=compare_seq, classify=classify_seq,
          describe="several renders on one PycodeSerializer / XmlContext (A, B, A again; same class name in two modules in turn) vs the stateless model"),
     Corr("c18.dq", gen_dq, impl_dq, compare=compare_dq, classify=classify_dq, nontrivial=lambda a, o: "\\" in a["s"],
          describe='CPython decoding of the body of a "…" literal vs decodeDq (model may decline)'),
@@ -1356,7 +1457,9 @@ CORRS = [
          describe="CPython's reading of a whole str literal (either quote, all escapes) vs decodeStrLit (model may decline)"),
     Corr("c18.byteslit", gen_byteslit, impl_byteslit, compare=compare_dq, classify=classify_lit, nontrivial=lambda a, o: "\\" in a["t"],
          describe="CPython's reading of a whole bytes literal vs decodeBytesLit (model may decline)"),
-    Corr("c18.pyeq", gen_pyeq, impl_pyeq, classify=classify_pyeq, describe="Python == on scalar/collection values vs pyEq"),
+    Corr("c18.decrepr", gen_decrepr, impl_decrepr, classify=classify_decrepr,
+         describe="repr(Decimal) (= Decimal('<str(d)>'), the decimal module's scientific notation) and its evaluation vs decRepr / readDecimal"),
+    Corr("c18.pyeq", gen_pyeq, impl_pyeq, compare=compare_dq, classify=classify_pyeq, describe="Python == on scalar/collection values vs pyEq"),
     Corr("c18.json", gen_json, impl_json, classify=classify_text, nontrivial=lambda a, o: len(a["s"]) > 0,
          describe="json.dumps(s, ensure_ascii=False) vs jsonDumps (every code point below U+0250, then random)"),
     Corr("c18.qnamecp", gen_qnamecp, impl_qnamecp, classify=classify_cps, nontrivial=lambda a, o: any(0xD800 <= c <= 0xDFFF for c in a["cps"]),
@@ -1396,22 +1499,6 @@ def same_value(a, b):
     return False
 
 
-def in_domain(a):
-    """instances whose init=False attributes still hold the class default (the
-    constructor cannot set them; see ASSUMPTIONS)"""
-    by_ref = {(e["module"], tuple(e["path"])): e for e in a["world"]}
-    for j in walk_vals(a["val"]):
-        if j["t"] != "model":
-            continue
-        e = by_ref[(j["module"], tuple(j["path"]))]
-        for f, (_, v) in zip(e["fields"], j["attrs"]):
-            if not f["init"]:
-                d = f["default"]
-                if d is None or d.get("value", d.get("factory")) != v:
-                    return False
-    return True
-
-
 def graph_name_clash(obj):
     """Own traversal of the object graph (everything reachable, elided or not):
     does one outermost class name belong to two modules?  Only then may
@@ -1441,8 +1528,6 @@ def graph_name_clash(obj):
 
 
 def oracle_check(a):
-    if not in_domain(a):
-        return None
     b, obj = real_case(a)
     var = a.get("var", "obj")
     try:
@@ -1453,6 +1538,8 @@ def oracle_check(a):
         if graph_name_clash(obj):
             return None
         return f"render refused an object graph without any class-name clash: {e}"
+    except Exception as e:  # noqa: BLE001
+        return f"render raised {type(e).__name__}: {e}"
     outcome, detail, got = run_source(text, var, obj)
     if outcome.startswith("exc:") or outcome == "unbound":
         return f"exec of the rendered source raised {detail}"
@@ -1461,36 +1548,124 @@ def oracle_check(a):
     return None
 
 
+def moved_init_false(a):
+    """(path of) model instances holding an init=False attribute that differs from the class default"""
+    by_ref = {(e["module"], tuple(e["path"])): e for e in a["world"]}
+    for j in walk_vals(a["val"]):
+        if j["t"] != "model":
+            continue
+        e = by_ref[(j["module"], tuple(j["path"]))]
+        for f, (_, v) in zip(e["fields"], j["attrs"]):
+            if not f["init"]:
+                d = f["default"]
+                if d is None or d.get("value", d.get("factory")) != v:
+                    return True
+    return False
+
+
+def _defaults(a):
+    for e in a["world"]:
+        for f in e.get("fields", []):
+            d = f["default"]
+            if d is not None:
+                yield d.get("value", d.get("factory"))
+
+
+def has_snan(a):
+    """a signaling NaN in the value or in a class default (both sides of `default == value`)"""
+    vals = [a["val"], *_defaults(a)]
+    return any(j["t"] == "decimal" and j.get("num") == "snan" for v in vals for j in walk_vals(v))
+
+
+def _map_everywhere(a, quiet):
+    """apply a leaf replacement to the value and to every class default"""
+    world = []
+    for e in a["world"]:
+        if "fields" in e:
+            fs = []
+            for f in e["fields"]:
+                d = f["default"]
+                if d is not None:
+                    k = "value" if "value" in d else "factory"
+                    d = {k: _map_val(d[k], quiet)}
+                fs.append({**f, "default": d})
+            e = {**e, "fields": fs}
+        world.append(e)
+    return {**a, "world": world, "val": _map_val(a["val"], quiet)}
+
+
+def _quiet_snan(a):
+    return _map_everywhere(a, lambda j: J(Decimal("NaN")) if j["t"] == "decimal" and j.get("num") == "snan" else None)
+
+
+def _drop_odd_enum(a):
+    return _map_everywhere(a, lambda j: {"t": "none"} if j["t"] == "enum" and odd_enum_name(j["member"]) else None)
+
+
+def _map_val(j, fn):
+    r = fn(j)
+    if r is not None:
+        return r
+    t = j["t"]
+    if t in ("list", "tuple", "set"):
+        return {**j, "items": [_map_val(x, fn) for x in j["items"]]}
+    if t == "dict":
+        return {**j, "items": [[_map_val(k, fn), _map_val(v, fn)] for k, v in j["items"]]}
+    if t == "model":
+        return {**j, "attrs": [[n, _map_val(v, fn)] for n, v in j["attrs"]]}
+    return j
+
+
+def _reset_init_false(a):
+    by_ref = {(e["module"], tuple(e["path"])): e for e in a["world"]}
+
+    def fix(j):
+        if j["t"] != "model":
+            return None
+        e = by_ref[(j["module"], tuple(j["path"]))]
+        attrs = []
+        for f, (n, v) in zip(e["fields"], j["attrs"]):
+            d = f["default"]
+            if not f["init"] and d is not None:
+                v = d.get("value", d.get("factory"))
+            attrs.append([n, _map_val(v, fix)])
+        return {**j, "attrs": attrs}
+
+    return {**a, "val": _map_val(a["val"], fix)}
+
+
+# (finding id, "the input lies in the region", "the failure is the one the finding describes", input with the trigger removed)
+KNOWN_REGIONS = [
+    ("C18-enum-member-name", has_odd_enum,
+     lambda msg: re.match(r"exec of the rendered source raised (SyntaxError|AttributeError|NameError)\b", msg) is not None,
+     _drop_odd_enum),
+    ("C18-init-false-attribute", moved_init_false,
+     lambda msg: msg.startswith("rendered source evaluates to"),
+     _reset_init_false),
+    ("C18-decimal-snan-compare", has_snan,
+     lambda msg: msg.startswith("render raised InvalidOperation"),
+     _quiet_snan),
+]
+
+
 def covered(a, msg):
-    """A failing input belongs to the listed finding when the value holds an
-    enum member whose name `Cls.<name>` cannot denote (a predicate on the input)
-    *and* the property holds once exactly those members are replaced by None -
-    so nothing else is wrong with it."""
+    """A failing input belongs to a listed finding when (1) it lies in that
+    finding's region (a predicate on the input), (2) the failure is of the kind
+    the finding describes, and (3) the property holds once exactly the triggers
+    of the known findings are removed - so nothing else is wrong with it."""
     try:
         hit = covered_nesting(a, msg)
         if hit:
             return hit
-        if not has_odd_enum(a):
+        regions = [r for r in KNOWN_REGIONS if r[1](a)]
+        named = [r for r in regions if r[2](msg)]
+        if not named:
             return None
-        # the defect shows as source that does not compile or that names something the class does not have
-        # (`Cls.a-b`, `Cls.class`, `Cls.1x`): a wrong VALUE or a refusal on such an input is something else
-        if not re.match(r"exec of the rendered source raised (SyntaxError|AttributeError|NameError)\b", msg):
-            return None
-
-        def fix(j):
-            t = j["t"]
-            if t == "enum" and odd_enum_name(j["member"]):
-                return {"t": "none"}
-            if t in ("list", "tuple", "set"):
-                return {**j, "items": [fix(x) for x in j["items"]]}
-            if t == "dict":
-                return {**j, "items": [[fix(k), fix(v)] for k, v in j["items"]]}
-            if t == "model":
-                return {**j, "attrs": [[n, fix(v)] for n, v in j["attrs"]]}
-            return j
-
-        if oracle_check({**a, "val": fix(a["val"])}) is None:
-            return "C18-enum-member-name"
+        fixed = a
+        for r in regions:
+            fixed = r[3](fixed)
+        if oracle_check(fixed) is None:
+            return named[0][0]
     except Exception:  # noqa: BLE001
         return None
     return None
@@ -1577,7 +1752,45 @@ def finding_nesting_limit():
     return outs[0] == "equal" and outs[1].startswith("exc:SyntaxError") and "too many nested" in outs[1], " / ".join(outs)
 
 
-FINDINGS = {"C18-enum-member-name": finding_enum_member_name, "C18-nesting-limit": finding_nesting_limit}
+def _finding_module():
+    m = types.ModuleType("c18find_f")
+    sys.modules["c18find_f"] = m
+    exec(  # noqa: S102
+        "from dataclasses import dataclass, field\nfrom typing import Any\n"
+        "@dataclass\nclass Doc:\n    lang: str = field(init=False, default='en')\n    total: Any = 0\n    note: Any = None\n",
+        m.__dict__,
+    )
+    return m
+
+
+def finding_init_false_attribute():
+    m = _finding_module()
+    obj = m.Doc()
+    obj.lang = "fr"  # an attribute of an init=False field, changed after construction
+    text = PycodeSerializer().render(obj)
+    outcome, _, got = run_source(text, "obj", obj)
+    untouched = m.Doc()
+    o2, _, _ = run_source(PycodeSerializer().render(untouched), "obj", untouched)
+    return outcome == "unequal" and got.lang == "en" and "lang" not in text and o2 == "equal", f"{outcome} (restored lang={getattr(got, 'lang', None)!r}) / untouched: {o2}"
+
+
+def finding_decimal_snan():
+    m = _finding_module()
+    try:
+        PycodeSerializer().render(m.Doc(total=Decimal("sNaN")))
+        first = "rendered"
+    except InvalidOperation:
+        first = "InvalidOperation"
+    second = PycodeSerializer().render(m.Doc(note=Decimal("sNaN")))  # non-numeric default: no comparison with a number
+    return first == "InvalidOperation" and "note=Decimal('sNaN')" in second, f"numeric default: {first}; None default: rendered"
+
+
+FINDINGS = {
+    "C18-enum-member-name": finding_enum_member_name,
+    "C18-nesting-limit": finding_nesting_limit,
+    "C18-init-false-attribute": finding_init_false_attribute,
+    "C18-decimal-snan-compare": finding_decimal_snan,
+}
 
 _RULE = (
     "hand-picked cases (every repr_object/literal_value/build_imports branch, each remaining and each repaired defect, cross-type default elision), "
@@ -1605,30 +1818,32 @@ LEVEL_TEXT = (
     "(render_refuses_or_round_trips, code_rt_partial: nested classes and enums, tuples, sets, frozensets, QNames, str and bytes of "
     "any content, ...); every name the source uses is bound to the class it means (imports_sufficient, full strength); repr() of "
     "every str (for every printability table) and of every bytes value is read back by the parser as that value "
-    "(str_repr_roundtrips, bytes_repr_roundtrips), as is the literal written for a QName text, lone surrogates included "
+    "(str_repr_roundtrips, bytes_repr_roundtrips), likewise repr(float) for every binary64 value (float_repr_evaluates_back, from C05's "
+    "float_repr_rt) and repr(Decimal) for every Decimal (decimal_repr_evaluates_back), as is the literal written for a QName text, lone surrogates included "
     "(qname_codepoints_roundtrip). One region remains excluded from the round trip, a proved counterexample and a replayed "
-    "finding: more than 200 nested brackets (CPython's tokenizer limit, probed each run). Enum members whose name is not an "
+    "finding: more than 200 nested brackets (CPython's tokenizer limit, probed each run); attributes of init=False fields changed "
+    "after construction are not restored (explicit hypothesis initFalseAtDefault, proved counterexample, finding), and a "
+    "Decimal('sNaN') compared with a numeric default makes render itself raise (modelled: cmpRaises; finding). Enum members whose name is not an "
     "ASCII identifier or is a keyword are outside the model (listed finding). The model is tied to /repo by comparing the exact "
     "emitted text and the exec outcome on generated dataclasses and values (also several renders on one serializer), repr() and "
     "literal parsing of str/bytes, json.dumps and the QName literal on every code point below U+0250, surrogates and random "
     "strings, Python == on 94x94 value pairs, and the theorem's claim is re-checked on the real code wherever its hypotheses hold."
 )
 LEVEL_NOTE = (
-    "Trusted: Lean kernel; CPython's parsing of the emitted text into the modelled AST (string/bytes literal decoding, the "
-    "bracket nesting limit and repr(str)/repr(bytes) are modelled and compared) and the repr/eval round trip of finite floats, "
-    "Decimal and xsdata date/time values (their repr is an input); Fraction() as the numeric value used for ==; the sampling "
-    "correspondence check. IntEnum/StrEnum/Flag, NaN-valued defaults, signalling NaN, dict/set permutations and duplicate "
-    "collapse, dataclass instances as dict keys or set elements, generators, NamedTuples and classes defined inside functions "
-    "are not modelled."
+    "Trusted: Lean kernel; CPython's tokenising of the emitted text into the modelled AST (string/bytes literal decoding, the "
+    "bracket nesting limit, repr(str)/repr(bytes), float()/repr(float) (C05's exact binary64 model, float_repr_rt) and "
+    "Decimal(str)/str(Decimal) are modelled, proved to round-trip and compared with the interpreter); the repr/eval round "
+    "trip of xsdata date/time values (their repr is an input); the sampling correspondence check. IntEnum/StrEnum/Flag, "
+    "NaN-valued defaults, dict/set permutations and duplicate collapse, a signaling NaN inside a dict/set comparison, dataclass "
+    "instances as dict keys or set elements, generators, NamedTuples and classes defined inside functions are not modelled."
 )
 TRUSTED = [
     "CPython parses the emitted text into the PyExpr AST the model evaluates (the text itself is compared character by character with the real output)",
-    "repr()/literal round trip of finite float, Decimal and XmlDate/XmlTime/XmlDateTime/XmlDuration/XmlPeriod is taken from the interpreter (repr strings are inputs of the model); for str and bytes the repr is an input too, but every input is checked against the model's own pyReprStr/pyReprBytes and the domain predicate asks that it decodes to the value",
+    "repr()/constructor round trip of XmlDate/XmlTime/XmlDateTime/XmlDuration/XmlPeriod is taken from the interpreter (repr strings are inputs of the model); for str, bytes, float and Decimal the repr is an input too, but every input is checked against the model's own pyReprStr / pyReprBytes / F64.repr / decRepr and the theorems str_repr_roundtrips, bytes_repr_roundtrips, float_repr_evaluates_back, decimal_repr_evaluates_back show it is read back as the value",
     "numeric == between bool/int/float/Decimal is exact comparison of fractions.Fraction values supplied by the harness",
     "format pieces (indent, float(\"…\"), QName(\"…\") and its escapes for all ASCII characters, import line, enum member, bracket layout of every array kind) and dir(builtins) are regenerated by probing the live functions and tied to the model by the theorems literal_formats, layout_probes, qname_escapes_ascii",
 ]
 ASSUMPTIONS = [
-    "attributes of init=False fields hold the class default (a constructor call cannot set them); instances violating this are outside the property's domain",
     "'equal' is Python ==; for the failing-input search NaN is additionally taken equal to NaN position-wise",
     "classes are importable by module and qualified name (module-level or nested in classes, not in functions or __main__)",
     "a SerializerError from render is an accepted outcome exactly for object graphs that hold two classes of one outermost name from different modules (checked by an own traversal of the object graph)",
